@@ -60,6 +60,9 @@ type op struct {
 	Keys  []string  `json:"keys,omitempty"`
 	Imp   []impSpec `json:"imp,omitempty"`
 	Token uint64    `json:"token,omitempty"`
+	// Kind "batch" (C20): Batch holds 2..4 mutations on one key that are
+	// issued at the same instant by as many goroutines.
+	Batch []op `json:"batch,omitempty"`
 }
 
 func (o op) String() string {
@@ -82,6 +85,12 @@ func (o op) String() string {
 		return fmt.Sprintf("removeKeys(%v)", o.Keys)
 	case "release":
 		return fmt.Sprintf("release(%s,%d)", o.Key, o.Token)
+	case "batch":
+		var parts []string
+		for _, b := range o.Batch {
+			parts = append(parts, b.String())
+		}
+		return "concurrently{" + strings.Join(parts, " || ") + "}"
 	}
 	return o.Kind
 }
